@@ -63,6 +63,7 @@ type c20gChild struct {
 	cl      *drive.Client
 	kind    string
 	errSeen int64 // bytes of stderr already examined
+	retries int64
 }
 
 func c20gStart(tag, kind, scratch string) (*c20gChild, string) {
@@ -215,7 +216,7 @@ func c20gTemplates(r *common.Rand, uploadID string) []c20gReq {
 
 // numeric junk: values between ~1e6 and 2^62 are deliberately absent (a defect that allocates by such a number would
 // exhaust the sandbox's memory instead of being observed); the extremes are there.
-var c20gJunk = []string{"", "-1", "0", "99999999999999999999", "9223372036854775807", "4611686018427387904", "9223372036854775808", "65536", "abc", "1e9", "%00", "null", "true", "1.5", "-9223372036854775808", " 5", "5 ", "0x10"}
+var c20gJunk = []string{"", "-1", "0", "99999999999999999999", "9223372036854775807", "4611686018427387904", "9223372036854775808", "65536", "abc", "1e9", "%00", "null", "true", "1.5", "-9223372036854775808", "%205", "5%20", "0x10"} // (raw spaces would break the request line itself: that is left to the byte-level part)
 
 func c20gMutateQuery(r *common.Rand, target string) string {
 	path, query, _ := strings.Cut(target, "?")
@@ -376,7 +377,34 @@ func (c *c20gChild) send(q c20gReq) c20gResp {
 		return c.sendRaw(q.Raw)
 	}
 	rsp := c.cl.Do(q.Method, q.Target, q.Hdr, q.Body)
-	return c20gResp{status: rsp.Status, hdr: rsp.Header, body: rsp.Body, err: rsp.Err}
+	for try := 0; try < 3 && rsp.Err != "" && c.alive(); try++ {
+		// A connection can be reset under the client by the HTTP stack itself (the server answers a request whose body
+		// is still in flight and closes; a keep-alive connection dies for reasons of an earlier exchange). Only a failure
+		// that repeats on fresh connections is attributed to the emulator's handling of this request.
+		c.cl.Close()
+		c.retries++
+		time.Sleep(time.Duration(5*(try+1)) * time.Millisecond)
+		rsp = c.cl.Do(q.Method, q.Target, q.Hdr, q.Body)
+	}
+	out := c20gResp{status: rsp.Status, hdr: rsp.Header, body: rsp.Body, err: rsp.Err}
+	if rsp.Err != "" && c.alive() {
+		// diagnostic: the same request over a raw connection, reading whatever arrives
+		var buf bytes.Buffer
+		fmt.Fprintf(&buf, "%s %s HTTP/1.1\r\nHost: %s\r\n", q.Method, q.Target, c.addr)
+		for _, h := range q.Hdr {
+			fmt.Fprintf(&buf, "%s: %s\r\n", h[0], h[1])
+		}
+		fmt.Fprintf(&buf, "Content-Length: %d\r\nConnection: close\r\n\r\n", len(q.Body))
+		buf.Write(q.Body)
+		if conn, err := net.DialTimeout("tcp", c.addr, 5*time.Second); err == nil {
+			_ = conn.SetDeadline(time.Now().Add(10 * time.Second))
+			_, werr := conn.Write(buf.Bytes())
+			got, rerr := io.ReadAll(conn)
+			conn.Close()
+			out.err += fmt.Sprintf(" [raw retry: write err=%v, read %d bytes, read err=%v, head=%q]", werr, len(got), rerr, clipN(string(got), 300))
+		}
+	}
+	return out
 }
 
 // sendRaw writes bytes to a fresh TCP connection, half-closes, and reads whatever comes back.
@@ -646,6 +674,7 @@ func c20gFuzz(run *common.Run, scratch string) {
 			}
 			defer func() { ch.stop() }()
 			journal := filepath.Join(common.Root(), ".build", fmt.Sprintf("journal-C20G-fz%d.txt", sh))
+			defer func() { run.Count("transport_errors_retried_on_a_fresh_connection", ch.retries) }()
 			for i := sh * per; i < (sh+1)*per && i < total; i++ {
 				if !run.Want("fuzz", i) || run.TooMany() {
 					continue
@@ -723,7 +752,11 @@ func c20gFuzz(run *common.Run, scratch string) {
 					}
 				}
 				if bad != "" {
-					run.Violation("fuzz", i, bad+" | store="+kind+" case="+clipN(q.String(), 1200), map[string]any{"store": kind, "case": q.String()})
+					errTail, _ := os.ReadFile(ch.errPath)
+					if len(errTail) > 3000 {
+						errTail = errTail[len(errTail)-3000:]
+					}
+					run.Violation("fuzz", i, bad+" | store="+kind+" case="+clipN(q.String(), 1200), map[string]any{"store": kind, "case": q.String(), "child_stderr_tail": string(errTail)})
 					ch.stop()
 					if !start() {
 						return
